@@ -345,6 +345,62 @@ def probe_d41b():
     return at_ctor != late, f"constructor listener: fires={at_ctor}; the same listener attached later: fires={late}"
 
 
+def probe_names_like_machine_attributes(seed, cases=30):
+    """Callback names that happen to be names the machine class uses itself — the ids of its states, `model`, `send`,
+    `states`, `initial_state` … — given explicitly (`on="s1"`, `before="states"`) and provided by the model and by a
+    listener: both providers are called like for any other name, and what they return is the event's result
+    (C12: the model and listeners receive the same callbacks as the machine would; C14: built from before / on)."""
+    import random
+    import warnings
+    from statemachine import State, StateMachine
+    fails = []
+    # (the names the metaclass protects: what the machine itself never offers as a callback)
+    reserved = ["model", "send", "states", "states_map", "initial_state", "final_states", "start_value", "state_field"]
+    for k in range(cases):
+        rng = random.Random(f"{seed}:names-like-attrs:{k}")
+        # (ids that look like convention names — of events / states this machine does not have)
+        ids = rng.sample(["a", "b", "on_hold", "before_stop", "after_halt", "on_enter_zz", "x1"], 3)
+        pool = ids + reserved
+        n_on, n_before = rng.sample(pool, 2)
+        field = rng.choice(["state", "st"])
+        who = rng.choice(["model", "listener", "both"])
+        log = []
+
+        def mk(tag):
+            def f(self, *a, **kw):
+                log.append(tag)
+                return tag
+            return f
+        ns = {}
+        sts = [State(initial=True), State(), State(final=True)]
+        for i, st in zip(ids, sts):
+            ns[i] = st
+        ns["go"] = sts[0].to(sts[1], on=n_on, before=n_before)
+        ns["fin"] = sts[1].to(sts[2])
+        with warnings.catch_warnings():
+            warnings.simplefilter("ignore")
+            try:
+                M = type(StateMachine)("NamesLikeAttrs", (StateMachine,), ns)
+                Mdl = type("Mdl", (), dict({field: None}, **({n_on: mk("model:on"), n_before: mk("model:before")}
+                                                             if who in ("model", "both") else {})))
+                Lst = type("Lst", (), {n_on: mk("listener:on"), n_before: mk("listener:before")}
+                           if who in ("listener", "both") else {})
+                sm = M(Mdl(), state_field=field, listeners=[Lst()])
+                res = sm.send("go")
+            except Exception as e:  # noqa: BLE001
+                fails.append(f"case {k}: state ids {ids}, on={n_on!r} before={n_before!r} provided by {who}: "
+                             f"{type(e).__name__}: {e}")
+                continue
+        provs = ["model", "listener"] if who == "both" else [who]
+        want = sorted(f"{p}:before" for p in provs) + sorted(f"{p}:on" for p in provs)
+        got = res if isinstance(res, list) else [res]
+        got = sorted(x for x in got if str(x).endswith(":before")) + sorted(x for x in got if str(x).endswith(":on"))
+        if got != want or sorted(log) != sorted(want):
+            fails.append(f"case {k}: state ids {ids}, go = a.to(b, on={n_on!r}, before={n_before!r}) with these names "
+                         f"provided by {who}: result {res!r}, called {log}; expected {want}")
+    return fails
+
+
 def run_corpus(ctx):
     """regression inputs of fixed findings: plain programs with asserts"""
     import os
@@ -384,6 +440,11 @@ def guard_expression_passes(ctx, n):
 def run(ctx):
     lean_obligations(ctx)
     run_corpus(ctx)
+    from framework import safe_probe
+    pf = safe_probe(probe_names_like_machine_attributes, ctx.seed)
+    ctx.coverage["names_like_machine_attributes_cases"] = 30
+    if pf:
+        ctx.violation(ctx.write_replay("names_like_machine_attributes.txt", "\n".join(pf[:12]) + "\n"), pf[0][:200])
     import subprocess
     from common import LEAN
     subprocess.run(["lake", "build", "drv_expr"], cwd=LEAN, capture_output=True, text=True)
